@@ -153,6 +153,22 @@ func Topo(kind string, shape PathShape, goFunc bool, root string, n int) *spec.S
 		conn("src.out", "A.in")
 		conn("A.out", "CC.in")
 		conn("CC.out", "B.in")
+	case "gather":
+		// G has an ordinary in-port (hdr) and a joined one (parts)
+		addSrc("src", n)
+		addSrc("srh", 1)
+		addProc("A", in, []string{"out"}, nil, nil, pk)
+		addProc("H", in, []string{"out"}, nil, nil, spec.KCmd)
+		s.Procs = append(s.Procs, &spec.Proc{Name: "SS", Kind: spec.KSubStream})
+		g := addProc("G", []spec.PortDecl{{Name: "hdr"}, {Name: "parts", Join: "space"}}, []string{"out"}, nil, nil, spec.KCmd)
+		g.Outs = []*spec.Out{{Port: "out", Pattern: "gathered.G.out"}}
+		addProc("K", in, []string{"out"}, nil, nil, spec.KCmd)
+		conn("src.out", "A.in")
+		conn("srh.out", "H.in")
+		conn("A.out", "SS.in")
+		conn("SS.substream", "G.parts")
+		conn("H.out", "G.hdr")
+		conn("G.out", "K.in")
 	case "dirout":
 		// A's declared output is a directory (mkdir + files inside), consumed by B
 		addSrc("src", n)
